@@ -31,7 +31,7 @@ STRESSORS = [
     ("token-mutation", 12), ("long-macro-body", 3), ("long-macro-arg", 3), ("obj-arg", 4),
     ("div-zero", 2), ("deep-include", 2), ("repeat-big", 2), ("string-edge", 4), ("scope", 2),
     ("addr-top", 1), ("none", 3), ("unary-chain", 2), ("int-min-div", 1), ("macro-arg-escapes", 2),
-    ("truncate-instr", 12), ("suffix-chain", 3),
+    ("truncate-instr", 12), ("suffix-chain", 3), ("out-write-fail", 6),
 ]
 
 
@@ -417,6 +417,20 @@ class C16(Engine):
                 n = rng.pick([3, 100, 255, 256, 300, 600])
                 sfx = rng.pick([".x", ".", "@", "*", "+", ".w", ".aq", "/", "'", "_"])
                 add_line("  " + mn + sfx * n + rest)
+        elif kind == "out-write-fail":
+            # the disk fills up (or the listing cannot be written) while naken_asm writes: every byte offset class,
+            # every output type, images small enough to sit in one stdio buffer and large enough to need several
+            n = rng.pick([0, 1, 200, 2000, 9000])
+            if n:
+                add_line(".repeat %d\n.db 0x11, 0x22, 0x33\n.endr" % n)
+            typ = rng.pick(["hex", "srec", "elf", "bin", "wdc", "uf2", "amiga", "macho"])
+            plan["argv"] = (["-l"] if rng.chance(1, 3) else []) + ["-type", typ, "-o", "out.x", "a.asm"]
+            target = rng.pick(["out.x", "out.x", "out.x", "out.lst"])
+            plan["faults"].append({"kind": "write_fail", "path": target, "nth": 0,
+                                   "offset": rng.pick([0, 1, 52, 100, 4095, 4096, 4097, 8192, 20000]) if rng.chance(2, 3) else rng.below(30000),
+                                   "errno": rng.pick(["ENOSPC", "EIO", "EDQUOT"])})
+            if rng.chance(1, 4):
+                plan["faults"].append({"kind": "open_fail", "path": rng.pick(["out.x", "out.lst"]), "nth": 0, "errno": rng.pick(["EACCES", "ENOSPC", "EMFILE"])})
         # "none": plain program
 
     # -- execution + oracle ------------------------------------------------
